@@ -107,7 +107,7 @@ impl Service<Request<Bytes>> for Peer {
     }
 }
 
-#[cfg(feature = "verif-hooks")]
+#[cfg(feature = "verif-hooks-conn")]
 pub(crate) mod verif_hooks {
     //! Thin wrappers for the external verification harness.
     use super::*;
